@@ -4,6 +4,7 @@ CONSTANTS
   W = 8
   MaxOps = 3
   MaxParOps = 2
+  MaxLadder = 5
   MaxUnOps = 1
   Seed = 0
   Tuples <- QuickTuples
